@@ -218,12 +218,11 @@ func (cs *bitsCase) call() string {
 func runBitsFn(c *core.Ctx, pool *gjs.Pool) bool {
 	params := paramsModule(c)
 	cfg := "SPECIFICATION Spec\nINVARIANT Valid\nINVARIANT Sane\nINVARIANT Emit\nCHECK_DEADLOCK FALSE\n"
-	r, err := tlcx.Run(c, tlcx.Opts{Module: "BitsFnScen", Cfg: cfg, Workers: 8, Timeout: 28 * time.Minute, HeapMB: 6144,
+	r, err := tlcx.Run(c, tlcx.Opts{Module: "BitsFnScen", Cfg: cfg, Workers: 2, Timeout: 28 * time.Minute, HeapMB: 2048,
 		Files: map[string]string{"C13Params.tla": params}})
 	if !tlcx.MustComplete(c, r, err, "BitsFnScen") {
 		return false
 	}
-	c.Phase("bits_tlc")
 	files, _ := filepath.Glob(filepath.Join(r.Dir, "c13_bits.*.ndjson"))
 	sort.Strings(files)
 	byFn := map[string][]*bitsCase{}
@@ -294,6 +293,9 @@ func runBitsFn(c *core.Ctx, pool *gjs.Pool) bool {
 			c.Infra(fmt.Errorf("BitsFnScen emitted no case for %s", fn))
 			return false
 		}
+	}
+	if corrupt("bits") {
+		byFn["Mul32"][0].want += ",1"
 	}
 	prog := bitsProgram(byFn, order)
 	b := pool.RunBoth(c.Scratch, prog, gjs.Opts{}, 10*time.Minute, true, false)
